@@ -284,7 +284,7 @@ def main():
     h0["throttle"] = False
     h0["ops"] = [(1, [b"alice", b"123123", b"a@example.com"]), (6, [b"old00"]), (2, [b"alice", b"123123"]), (1, [b"bob12", b"pass", b""])] + h0["ops"][:10]
     hs.append(h0)
-    nh = 3000 if thorough else 150
+    nh = 4000 if thorough else 400
     for k in range(nh):
         hs.append(make_history(1 if k % 5 == 4 else 0, rng.choice(["roomy", "roomy", "tight", "tight", "full", "full-old", "full-old"])))
     lines = [line_of(h) for h in hs]
